@@ -16,13 +16,13 @@ RULE = ('P1 drawn in zones 1..60, both hemispheres, easting 100 000..900 000, la
         'geodesic from P1 with grid_dist/lsf and grid1to2 - convergence ends within 2 mm of P2; grid2to1 = end azimuth + 180 + '
         'convergence in P2\'s own zone (1e-8 deg + 1 mm at the far end); vincdir_utm(bearing, distance) reproduces P2 within '
         '1 mm in P1\'s zone; lsf within [min, max] point scale factor +-3e-7 and within 5e-7 of the 11-point Simpson mean (psf from '
-        'tm_exact).  distinct = zone band x hemisphere x |lat| band x length decade x direction octant x same/adjacent zone x '
+        'tm_exact).  5 % of the direct calls are preceded by a tuned 1 m line in the same zone whose returned line scale factor equals the planar first estimate of the judged line (a value taken from the artefact).  distinct = zone band x hemisphere x |lat| band x length decade x direction octant x same/adjacent zone x '
         'ellipsoid')
 ASSUMPTIONS = ['tm_exact and geod_exact oracles (self-validated each shard)',
                'bearing tolerance 1e-8 deg + 1 mm at the far end (the statement gives none for bearings; DESIGN.md section 5)']
 N = {'quick': 400, 'thorough': 6000}
 SHARDS = {'quick': 16, 'thorough': 32}
-REQUIRED_COUNTERS = ['other_hemisphere_sequences', 'other_ellipsoid_sequences', 'inverse_closure', 'bearing2_judged', 'direct_judged', 'lsf_judged', 'adjacent_zone_cases', 'northern_cases']
+REQUIRED_COUNTERS = ['tuned_predecessor_sequences', 'other_hemisphere_sequences', 'other_ellipsoid_sequences', 'inverse_closure', 'bearing2_judged', 'direct_judged', 'lsf_judged', 'adjacent_zone_cases', 'northern_cases']
 K0, FE, FN = 0.9996, 500000.0, 10000000.0
 BUDGET = 60
 
@@ -159,6 +159,8 @@ def judge(ns, ctx, case, linesf_mon=None):
             ctx.violation('line_sf:not-mean-of-point-scale-factors', case, {'lsf': lsf, 'min_psf': lo_k, 'max_psf': hi_k,
                                                                            'simpson': simpson})
     # (d) the direct computation is the inverse of the inverse
+    if case.get('tuned_predecessor'):
+        tune_predecessor(G, ctx, z1, e1, n1, b12, gd, hemi, ell)
     if linesf_mon is not None:
         linesf_mon['n'] = 0
         linesf_mon['armed'] = True
@@ -187,6 +189,35 @@ def judge(ns, ctx, case, linesf_mon=None):
         ctx.violation('vincdir_utm:bearing2', case, {'grid2to1': bb21, 'oracle': (oaz + 180.0 + g2z1) % 360.0, 'diff_deg': d3})
     if abs(lsf2 - lsf) > 3e-7:
         ctx.violation('vincdir_utm:lsf-differs-from-inverse', case, {'direct': lsf2, 'inverse': lsf})
+
+
+def tune_predecessor(G, ctx, z1, e1, n1, b12, gd, hemi, ell):
+    """A hostile predecessor for the direct call about to be judged: a 1 m line in the same zone whose returned line scale
+    factor equals (to ~1e-11) the first, planar scale-factor estimate the direct routine will form for the judged line -
+    the value taken from the artefact, as a caller working along a traverse could produce it.  Any state a direct call
+    leaves behind (a retained estimate, a 'converged' flag) then meets the one value it can be confused with."""
+    try:
+        e2p = e1 + gd * math.sin(math.radians(b12))
+        n2p = n1 + gd * math.cos(math.radians(b12))
+        target = G.line_sf(z1, e1, n1, z1, e2p, n2p)
+
+        def f(E):
+            return G.vincdir_utm(z1, E, n1, 0.0, 1.0, hemi, ell)[4]
+        lo, hi = 500000.0, 900000.0
+        if not (f(lo) <= target <= f(hi)):
+            ctx.count('tuned_predecessor_not_possible')
+            return
+        for _ in range(48):
+            mid = 0.5 * (lo + hi)
+            if f(mid) < target:
+                lo = mid
+            else:
+                hi = mid
+        got = f(0.5 * (lo + hi))
+        ctx.count('tuned_predecessor_sequences')
+        ctx.maxi('C14.tuned_predecessor_lsf_gap', abs(got - target))
+    except Exception:
+        ctx.count('tuned_predecessor_raised')
 
 
 def geo_name(e):
@@ -224,6 +255,8 @@ def run_shard(spec, ctx):
             continue
         if i < 2:
             ctx.sample(case)
+        if rnd.random() < 0.05:
+            case['tuned_predecessor'] = True
         judge(ns, ctx, case, state)
         if rnd.random() < 0.3:
             c2 = dict(case)
